@@ -38,6 +38,7 @@ def check(chk, fx):
     c02.args(chk, fx)
     move_v(chk, fx)
     c02.once(chk, fx)
+    c02.lock(chk, fx)          # a value whose state was discarded must leave the value stack with it (no reuse later)
     move_w(chk, fx)
     raii(chk, fx)
     # the library's own functors (emplace_back, push_back, _eN, construct) are part of the transport: their type-level
